@@ -326,3 +326,89 @@ Fixpoint spec_get (ins : list (value * value)) (k : value) : option value :=
       | None => match value_ord k k' with Eq => Some v' | _ => None end
       end
   end.
+
+(* ------------------------------------------------------------------ Tuples with their item pointers (aliasing) *)
+(* A Tuple stores object POINTERS; the same pointer may sit in several slots (tuple(one, one, two);
+   push(t, x) twice).  An operand of cmp is either a plain value or a Tuple given slot by slot as
+   (pointer id, value of the object).  Two ways of walking a Tuple exist in the C code:
+     by index              Tuple_Cmp on `self`:  i++; item0 = t->items[i];
+     by Tuple_Iter_Next    iter_next(obj, item1) when the Tuple is `obj`: the cursor is the element
+                           pointer, the position is found as the FIRST slot holding it (finding F3). *)
+Definition pitems := list (N * value).
+Inductive operand := OVal (v : value) | OTup (items : pitems).
+Definition operand_value (o : operand) : value :=
+  match o with OVal v => v | OTup items => VSeq KTuple (map snd items) end.
+
+Inductive side :=
+| SList (l : list value)                             (* index walk / own iteration of Array, List *)
+| SIter (items : pitems) (cur : option (N * value)). (* Tuple_Iter_Init / Tuple_Iter_Next *)
+
+Definition side_head (s : side) : option value :=
+  match s with SList l => hd_error l | SIter _ cur => option_map snd cur end.
+
+(* Tuple_Iter_Next: while (items[i] isnt Terminal) { if (items[i] is curr) return items[i+1]; i++; } *)
+Fixpoint first_slot_next (p : N) (items : pitems) : option (N * value) :=
+  match items with
+  | [] => None
+  | (q, _) :: r => if (q =? p)%N then hd_error r else first_slot_next p r
+  end.
+
+Definition side_next (s : side) : side :=
+  match s with
+  | SList l => SList (tl l)
+  | SIter items cur => SIter items (match cur with None => None | Some (p, _) => first_slot_next p items end)
+  end.
+
+Inductive walk_out := WRes (c : Z) | WRaise | WFuel.   (* WFuel: the loop did not end within the fuel *)
+
+(* the common loop of Array_Cmp / List_Cmp / Tuple_Cmp over two walks *)
+Fixpoint walk_cmp (fuel : nat) (s0 s1 : side) : walk_out :=
+  match fuel with
+  | O => WFuel
+  | S f =>
+      match side_head s0, side_head s1 with
+      | None, None => WRes 0
+      | None, Some _ => WRes (-1)
+      | Some _, None => WRes 1
+      | Some x, Some y =>
+          match value_cmp x y with
+          | None => WRaise
+          | Some c => if c <? 0 then WRes (-1) else if 0 <? c then WRes 1 else walk_cmp f (side_next s0) (side_next s1)
+          end
+      end
+  end.
+
+Definition out_of_option (o : option Z) : walk_out := match o with Some c => WRes c | None => WRaise end.
+
+(* how X_Cmp walks `self`; which walk Tuple_Cmp uses is re-read from src/Tuple.c *)
+Definition self_side (o : operand) : option side :=
+  match o with
+  | OVal (VSeq _ xs) => Some (SList xs)
+  | OTup items => Some (if tuple_cmp_self_by_index then SList (map snd items) else SIter items (hd_error items))
+  | _ => None
+  end.
+(* iter_init / iter_next on `obj` *)
+Definition obj_side (o : operand) : option side :=
+  match o with
+  | OVal (VSeq _ xs) => Some (SList xs)
+  | OTup items => Some (SIter items (hd_error items))
+  | _ => None
+  end.
+Definition operand_len (o : operand) : nat :=
+  match o with OVal (VSeq _ xs) => length xs | OTup items => length items | _ => O end.
+(* two walks over at most n0+1 and n1+1 cursor states: a longer run has revisited a joint state *)
+Definition walk_fuel (a b : operand) : nat := (operand_len a + 2) * (operand_len b + 2) + 1.
+
+Definition operand_cmp (a b : operand) : walk_out :=
+  match a, b with
+  | OVal x, OVal y => out_of_option (value_cmp x y)
+  | _, _ =>
+      match self_side a, obj_side b with
+      | Some s0, Some s1 => walk_cmp (walk_fuel a b) s0 s1
+      | _, _ => WRaise                      (* c_int / iter_init on the wrong class raise; Tree: not modelled *)
+      end
+  end.
+
+(* eq neq lt gt le ge as coded, from the value cmp returns *)
+Definition preds_of (c : Z) : list bool :=
+  [c =? 0; negb (c =? 0); c <? 0; 0 <? c; negb (0 <? c); negb (c <? 0)].
